@@ -104,6 +104,17 @@ def universe(rnd, quick):
                     exts.append(ext)
             if exts:
                 out.append(list(need) + exts)
+    # a long element together with its inverse (the two need not be of the same form): all such pairs of length 5 in the
+    # thorough tier, a few in the quick tier
+    def inverse(x):
+        inv = [0] * len(x)
+        for i, v in enumerate(x):
+            inv[v] = i
+        return tuple(inv)
+    for need in NEEDS:
+        pairs = [(x, inverse(x)) for x in s[5] if x < inverse(x) and not any(contains(x, y) or contains(inverse(x), y) for y in need)]
+        for x, xi in (rnd.sample(pairs, min(2, len(pairs))) if quick else pairs):
+            out.append(list(need) + [x, xi])
     res = []
     for b in out:
         m = minimal(b)
